@@ -520,6 +520,33 @@ theorem lagging_history_evicts_at_most_once (ops : List OpC) (w : World) (ver : 
   obtain ⟨k, hk⟩ := hpre g hg
   exact hff k g hk
 
+/-- the same over ANY history of environment events (sibling consumption included: `.resv (some (consume …))`) and
+    reconciles under any write faults -/
+theorem evict_never_while_held_by_sibling_history (ops : List Op) (w : World)
+    (t : Option Tmpl) (jobTTL : Nat) (p : Pod) :
+    ∀ s ∈ (run w ops).2, s.job0.spec.direct = false → ∀ r, s.env.resv = some r → ¬ HeldBySibling t jobTTL p r := by
+  intro s hs hd r hr ⟨r0, uid, hn, he⟩
+  obtain ⟨r', p', hr', _, _, _, _, hsucc⟩ := evict_only_when_secured_history ops w s hs hd
+  rw [hr] at hr'
+  cases hr'
+  rw [migration_reservation_is_allocate_once] at he
+  have := (consume_allocate_once_succeeded r0 uid hn).1
+  simp only [effAO, Option.getD_some] at he
+  rw [← he] at this
+  rw [this] at hsucc
+  cases hsucc
+
+/-- … and along every LAGGING history (any fault masks): informer lag never lets an eviction through while a sibling
+    holds the reservation -/
+theorem lagging_evict_never_while_held_by_sibling (ops : List OpC) (w : World) (ver : Nat)
+    (t : Option Tmpl) (jobTTL : Nat) (p : Pod) :
+    ∀ s ∈ (runC .afterWrite { w := w, ver := ver, olds := [], assumed := none } ops).2,
+      s.job0.spec.direct = false → ∀ r, s.env.resv = some r → ¬ HeldBySibling t jobTTL p r := by
+  obtain ⟨pre, _, he⟩ := runC_sim ops { w := w, ver := ver, olds := [], assumed := none }
+    ⟨Nat.zero_le _, Or.inr ⟨rfl, rfl⟩⟩
+  rw [← he]
+  exact evict_never_while_held_by_sibling_history pre w t jobTTL p
+
 /-- the job of the witness: Running, reservation scheduled on another node, nothing recorded yet -/
 def lagWorld : World := exWorld
 
